@@ -20,7 +20,7 @@ BUDGET = {"quick": 60, "thorough": 900}
 FLOORS = {"quick": {"mic.min-image": 500, "mic.lattice-congruence": 500, "opt-vs-ref": 100, "distances_t": 50,
                     "closest_contact": 20, "plain": 50}}
 KINDS = ["mic", "mic", "mic", "t", "closest", "plain", "core"]
-NCASES = {"quick": 2400, "thorough": 24000}
+NCASES = {"quick": 7000, "thorough": 24000}
 
 
 ASAN_EVERY = {"quick": 25, "thorough": 6}
